@@ -72,6 +72,14 @@ RectFails(e) ==
      \cup (IF d = 2 /\ \E k \in 1..m : tuples[k] # <<e.axes[1][((k - 1) \div Len(e.axes[2])) + 1], e.axes[2][((k - 1) % Len(e.axes[2])) + 1]>>
            THEN {"ProductOrder|coord_sequence_from_rect_grid"} ELSE {})
      \cup (IF d = 2 /\ (o.geoseq[1] # o.seq[1] \/ o.geoseq[2] # o.seq[2]) THEN {"CartesianProduct|GeoGrid.coord_sequence_from_rect_grid"} ELSE {})
+     \* axes of different types (integer latitudes with fractional longitudes, ...): in quarters of a degree the node
+     \* sequence is the product of the axes, first axis slowest - from the static helper and from the grid object
+     \cup (IF \E q \in 1..Len(o.mixed) :
+              LET x == o.mixed[q]  n1 == Len(x.ax1) IN
+              \/ Len(x.lat4) # Len(x.ax0) * n1 \/ Len(x.lon4) # Len(x.ax0) * n1
+              \/ \E k \in 1..Len(x.lat4) : x.lat4[k] # x.ax0[((k - 1) \div n1) + 1] \/ x.lon4[k] # x.ax1[((k - 1) % n1) + 1]
+              \/ x.glat4 # x.lat4 \/ x.glon4 # x.lon4
+           THEN {"CartesianProduct|GeoGrid.coord_sequence_from_rect_grid(mixed axis types)"} ELSE {})
      \* the grid objects built from the axes have exactly these nodes (time axis of 3 samples)
      \cup (IF o.regseq # o.seq \/ o.regN # m \/ o.regsize # <<3, m>> THEN {"CartesianProduct|Grid.RegularGrid"} ELSE {})
      \cup (IF d = 2 /\ o.georegseq # <<o.seq[1], o.seq[2]>> THEN {"CartesianProduct|GeoGrid.RegularGrid"} ELSE {})
